@@ -1,13 +1,14 @@
-\* C38 quick: geometry (offset x size x min-size x role x partial), <= 3 structures; scaled units (MinStart=2 ~ 1 MiB, MbrMax=1 ~ 446 B)
+\* C38 quick: geometry (offset x size x min-size x role x partial size), <= 3 structures, rejected volumes not
+\* extended; scaled units (MinStart=2 ~ 1 MiB, MbrMax=1 ~ 446 B)
 CONSTANTS
   MinStart = 2
   MbrMax = 1
   PtrSize = 1
   MaxStructs = 3
-  OffVals <- OffGeo
-  SizeVals = {0, 1, 2, 3}
-  MinVals = {0, 1, 2}
-  RoleVals = {"none", "mbr", "system-data"}
+  OffVals <- OffMid
+  SizeVals = {0, 1, 2}
+  MinVals = {0, 1}
+  RoleVals = {"none", "mbr"}
   OwVals <- OwNone
   ContentVals <- ContentNone
   PartialVals = {FALSE, TRUE}
